@@ -263,6 +263,9 @@ func httpUpgraderRules(c *Ctx, prop string) {
 			problems = append(problems, "a refused request must be answered with one flushed error response "+desc)
 			continue
 		}
+		if why := statusCodeProblem(p, we[0].Args[2]); why != "" {
+			problems = append(problems, why+" "+desc)
+		}
 		if !(broken[gotErr] || gotErr == late) || c.errName(we[0].Args[1]) != gotErr {
 			problems = append(problems, fmt.Sprintf("refusal reports %s, which is not a broken rule %s", gotErr, desc))
 		}
